@@ -41,6 +41,11 @@ def run(ctx):
         t5 = [t for t in core.behaviours_from_print(r5["out"]) if len(t) == 5]
         ctx.rng.shuffle(t5)
         texts += t5[:1500]
+    rm = core.tlc(ctx, "gen-mixed", "Snippet", None, cfgtext=cfg("SpecMixed", ["Emit"], 0), workers=1, timeout=600)
+    mixed = core.behaviours_from_print(rm["out"])
+    if rm["rc"] != 0 or len(mixed) < 200:
+        raise Undecided("TLC enumerated only %d texts with mixed line ends" % len(mixed))
+    texts += mixed
     groups = [dict(kw=k, texts=texts) for k in KWLISTS]
     inp = ctx.path("s", "in.json")
     out = ctx.path("s", "trace.ndjson")
